@@ -1,0 +1,78 @@
+//go:build verif
+// +build verif
+
+package golang
+
+import (
+	"github.com/kyleconroy/sqlc/internal/compiler"
+	"github.com/kyleconroy/sqlc/internal/config"
+)
+
+// This file is compiled only with the build tag "verif".  It adds no
+// behaviour: it exposes the intermediate values of Generate (what the
+// templates and the importer are given) and the importer's answers, so that
+// an external verification harness can compare them with a formal model.
+
+type VerifValue struct {
+	Empty    bool
+	Emit     bool
+	IsStruct bool
+	Name     string
+	Type     string // Type() when not empty
+	Typ      string // the raw field
+	Struct   *Struct
+}
+
+type VerifQuery struct {
+	Cmd          string
+	MethodName   string
+	ConstantName string
+	FieldName    string
+	SourceName   string
+	HasRetType   bool
+	Ret          VerifValue
+	Arg          VerifValue
+}
+
+type VerifDump struct {
+	Enums   []Enum
+	Structs []Struct
+	Queries []VerifQuery
+	// Imports[file] = [std, dep] exactly as the templates receive them
+	Imports map[string][][]ImportSpec
+}
+
+func verifValue(v QueryValue) VerifValue {
+	out := VerifValue{Empty: v.isEmpty(), Emit: v.EmitStruct(), IsStruct: v.IsStruct(), Name: v.Name, Typ: v.Typ, Struct: v.Struct}
+	if !out.Empty {
+		out.Type = v.Type()
+	}
+	return out
+}
+
+// VerifGenerate runs the three builders of Generate and asks the importer for
+// the import lists of every file Generate would emit.
+func VerifGenerate(r *compiler.Result, settings config.CombinedSettings) VerifDump {
+	enums := buildEnums(r, settings)
+	structs := buildStructs(r, settings)
+	queries := buildQueries(r, settings, structs)
+	i := &importer{Settings: settings, Queries: queries, Enums: enums, Structs: structs}
+	d := VerifDump{Enums: enums, Structs: structs, Imports: map[string][][]ImportSpec{}}
+	files := []string{"db.go", "models.go"}
+	if settings.Go.EmitInterface {
+		files = append(files, "querier.go")
+	}
+	seen := map[string]bool{}
+	for _, q := range queries {
+		d.Queries = append(d.Queries, VerifQuery{Cmd: q.Cmd, MethodName: q.MethodName, ConstantName: q.ConstantName,
+			FieldName: q.FieldName, SourceName: q.SourceName, HasRetType: q.hasRetType(), Ret: verifValue(q.Ret), Arg: verifValue(q.Arg)})
+		if !seen[q.SourceName] {
+			seen[q.SourceName] = true
+			files = append(files, q.SourceName)
+		}
+	}
+	for _, f := range files {
+		d.Imports[f] = i.Imports(f)
+	}
+	return d
+}
